@@ -365,6 +365,34 @@ pub struct Sd {
     tr: Tr,
 }
 
+/// fieldless derived enum: one byte in memory, declares 0 bytes
+#[derive(Debug, Clone, Copy, PartialEq, Eq, Hash, PartialOrd, Ord, MessageBody)]
+pub enum Flag {
+    A,
+    B,
+    C,
+}
+
+/// one byte in memory, hand-written declared length 2
+#[derive(Debug, Clone, Copy, PartialEq, Eq, Hash, PartialOrd, Ord)]
+pub struct Word(u8);
+impl MessageBody for Word {
+    fn byte_len(&self) -> usize {
+        2
+    }
+}
+
+/// derived struct whose collections hold one-byte elements with other declared lengths
+#[derive(Debug, Clone, MessageBody)]
+pub struct S1 {
+    f: Vec<Flag>,
+    o: VecDeque<Option<bool>>,
+    w: [Word; 2],
+    l: LinkedList<Flag>,
+    b: Vec<bool>,
+    tr: Tr,
+}
+
 /// derived enum whose variants carry arrays
 #[derive(Debug, Clone, MessageBody)]
 pub enum Ea {
@@ -1148,6 +1176,54 @@ impl Fam for Sd {
         Sd { d: Fam::arb(r), m: Fam::arb(r), q: Fam::arb(r), tr: Tr::new() }
     }
 }
+impl Fam for Flag {
+    fn from_v(v: &V) -> Option<Self> {
+        match v {
+            V::En(0, xs) if xs.is_empty() => Some(Flag::A),
+            V::En(1, xs) if xs.is_empty() => Some(Flag::B),
+            V::En(2, xs) if xs.is_empty() => Some(Flag::C),
+            _ => None,
+        }
+    }
+    fn to_v(&self) -> V {
+        V::En(*self as usize, vec![])
+    }
+    fn arb(r: &mut Rng) -> Self {
+        *r.pick(&[Flag::A, Flag::B, Flag::C])
+    }
+}
+impl Fam for Word {
+    fn from_v(v: &V) -> Option<Self> {
+        match v {
+            V::F(2, n) if *n < 256 => Some(Word(*n as u8)),
+            _ => None,
+        }
+    }
+    fn to_v(&self) -> V {
+        V::F(2, self.0 as u128)
+    }
+    fn arb(r: &mut Rng) -> Self {
+        Word(u8::arb(r))
+    }
+}
+impl Fam for S1 {
+    fn from_v(v: &V) -> Option<Self> {
+        match v {
+            V::R(xs) if xs.len() == 6 => {
+                let (f, o, w, l, b) =
+                    (Fam::from_v(&xs[0])?, Fam::from_v(&xs[1])?, Fam::from_v(&xs[2])?, Fam::from_v(&xs[3])?, Fam::from_v(&xs[4])?);
+                Some(S1 { f, o, w, l, b, tr: Tr::from_v(&xs[5])? })
+            }
+            _ => None,
+        }
+    }
+    fn to_v(&self) -> V {
+        V::R(vec![self.f.to_v(), self.o.to_v(), self.w.to_v(), self.l.to_v(), self.b.to_v(), self.tr.to_v()])
+    }
+    fn arb(r: &mut Rng) -> Self {
+        S1 { f: Fam::arb(r), o: Fam::arb(r), w: Fam::arb(r), l: Fam::arb(r), b: Fam::arb(r), tr: Tr::new() }
+    }
+}
 impl Fam for Ea {
     fn from_v(v: &V) -> Option<Self> {
         match v {
@@ -1261,6 +1337,7 @@ impl Fam for Nest {
 
 /// the family: name -> type.  Groups of layout-compatible types (same size and alignment):
 /// {u32 a4 f32 i32 char ncu32}, {u64 a8 f64 pt}, {str vecu8 vecstr}, {unit zst}.
+/// `twa`/`twb`/`twc` (see `twins`) are distinct types with one and the same `type_name`.
 /// Every `MessageBody` impl of body.rs has at least one representative (arrays `[T; N]` also with
 /// elements of value-dependent length: astr3 aopt4 avec2 sarr earr).
 macro_rules! with_clonable_ty {
@@ -1297,6 +1374,18 @@ macro_rules! with_clonable_ty {
             "nest" => { type $T = W<Nest>; $body }
             "ip" => { type $T = W<Ipv4Addr>; $body }
             "dur" => { type $T = W<Duration>; $body }
+            "vflag" => { type $T = W<Vec<Flag>>; $body }
+            "vob" => { type $T = W<Vec<Option<bool>>>; $body }
+            "vword" => { type $T = W<Vec<Word>>; $body }
+            "vunit" => { type $T = W<Vec<()>>; $body }
+            "dflag" => { type $T = W<VecDeque<Flag>>; $body }
+            "dob" => { type $T = W<VecDeque<Option<bool>>>; $body }
+            "aob3" => { type $T = W<[Option<bool>; 3]>; $body }
+            "aword4" => { type $T = W<[Word; 4]>; $body }
+            "slflag" => { type $T = W<&'static [Flag]>; $body }
+            "hsob" => { type $T = W<HashSet<Option<bool>>>; $body }
+            "bsflag" => { type $T = W<BTreeSet<Flag>>; $body }
+            "s1b" => { type $T = S1; $body }
             "deqs" => { type $T = W<VecDeque<String>>; $body }
             "sdeq" => { type $T = Sd; $body }
             "astr3" => { type $T = W<[String; 3]>; $body }
@@ -1336,14 +1425,17 @@ macro_rules! with_ty {
     };
 }
 
-const CLONABLE: [&str; 57] = [
+const CLONABLE: [&str; 72] = [
+    "vflag", "vob", "vword", "vunit", "dflag", "dob", "aob3", "aword4", "slflag", "hsob", "bsflag", "s1b", "twa", "twb", "twc",
     "deqs", "sdeq",
     "u32", "a4", "f32", "i32", "char", "u64", "a8", "f64", "pt", "boxu64", "u8", "bool", "unit", "zst", "str", "sstr",
     "vecu8", "vecstr", "deq", "map", "optu32", "optstr", "res", "tup", "ts", "en", "gstr", "gu8", "nest", "ip", "dur",
     "astr3", "aopt4", "avec2", "sarr", "earr", "ints", "tup1", "tup3", "tup10", "ll", "slice", "hmap", "hset", "bset",
     "heap", "ip6", "ipaddr", "sa4", "sa6", "sa", "simtime", "oo", "res2", "boxstr",
 ];
-const GROUPS: [&[&str]; 9] = [
+const GROUPS: [&[&str]; 11] = [
+    &["twa", "twb", "twc", "twa", "twb", "twc", "u64", "a8", "str"],
+    &["vflag", "vob", "vword", "vecu8", "vunit", "dflag", "dob", "slflag", "s1b"],
     &["astr3", "tup3", "sarr", "avec2"],
     &["aopt4", "optu32", "earr", "oo", "res2"],
     &["deq", "deqs", "sdeq", "vecu8", "vecstr"],
@@ -1355,7 +1447,165 @@ const GROUPS: [&[&str]; 9] = [
     &["optu32", "optstr", "res", "en", "gu8", "gstr", "nest"],
 ];
 
+/// operations on a body type that cannot be named outside the block that declares it
+#[derive(Clone, Copy)]
+pub struct Twin {
+    arb: fn(&mut Rng) -> String,
+    set: fn(&mut Message, &str, &V) -> Option<String>,
+    cast: fn(Message) -> Result<String, Message>,
+    content: fn(&Message) -> Option<String>,
+    content_mut: fn(&mut Message) -> Option<String>,
+    can_cast: fn(&Message) -> bool,
+    type_name: &'static str,
+}
+
+fn content_generic<T: Fam + MessageBody>(m: &Message) -> Option<String> {
+    m.try_content::<T>().map(|v| v.to_v().show())
+}
+fn content_mut_generic<T: Fam + MessageBody>(m: &mut Message) -> Option<String> {
+    m.try_content_mut::<T>().map(|v| v.to_v().show())
+}
+fn can_cast_generic<T: Fam + MessageBody>(m: &Message) -> bool {
+    m.can_cast::<T>()
+}
+fn arb_generic<T: Fam>(r: &mut Rng) -> String {
+    T::arb(r).to_v().show()
+}
+fn twin_of<T: Fam + MessageBody + Clone + std::fmt::Debug + Send>() -> Twin {
+    Twin {
+        arb: arb_generic::<T>,
+        set: set_generic::<T>,
+        cast: cast_generic::<T>,
+        content: content_generic::<T>,
+        content_mut: content_mut_generic::<T>,
+        can_cast: can_cast_generic::<T>,
+        type_name: std::any::type_name::<T>(),
+    }
+}
+
+/// three DIFFERENT types that all print as `hx::c16::twins::Payload` (items declared in sibling
+/// blocks of one function): `twa` and `twb` are layout-compatible, `twc` owns a heap buffer.
+/// Only `TypeId` tells them apart.
+fn twins() -> [Twin; 3] {
+    let a = {
+        #[derive(Debug, Clone, MessageBody)]
+        struct Payload {
+            v: u64,
+            tr: Tr,
+        }
+        impl Fam for Payload {
+            fn from_v(v: &V) -> Option<Self> {
+                match v {
+                    V::R(xs) if xs.len() == 2 => {
+                        let v = u64::from_v(&xs[0])?;
+                        Some(Payload { v, tr: Tr::from_v(&xs[1])? })
+                    }
+                    _ => None,
+                }
+            }
+            fn to_v(&self) -> V {
+                V::R(vec![self.v.to_v(), self.tr.to_v()])
+            }
+            fn arb(r: &mut Rng) -> Self {
+                Payload { v: u64::arb(r), tr: Tr::new() }
+            }
+        }
+        twin_of::<Payload>()
+    };
+    let b = {
+        #[derive(Debug, Clone, MessageBody)]
+        struct Payload {
+            v: [u8; 8],
+            tr: Tr,
+        }
+        impl Fam for Payload {
+            fn from_v(v: &V) -> Option<Self> {
+                match v {
+                    V::R(xs) if xs.len() == 2 => {
+                        let v = <[u8; 8]>::from_v(&xs[0])?;
+                        Some(Payload { v, tr: Tr::from_v(&xs[1])? })
+                    }
+                    _ => None,
+                }
+            }
+            fn to_v(&self) -> V {
+                V::R(vec![self.v.to_v(), self.tr.to_v()])
+            }
+            fn arb(r: &mut Rng) -> Self {
+                Payload { v: Fam::arb(r), tr: Tr::new() }
+            }
+        }
+        twin_of::<Payload>()
+    };
+    let c = {
+        #[derive(Debug, Clone, MessageBody)]
+        struct Payload {
+            v: String,
+            tr: Tr,
+        }
+        impl Fam for Payload {
+            fn from_v(v: &V) -> Option<Self> {
+                match v {
+                    V::R(xs) if xs.len() == 2 => {
+                        let v = String::from_v(&xs[0])?;
+                        Some(Payload { v, tr: Tr::from_v(&xs[1])? })
+                    }
+                    _ => None,
+                }
+            }
+            fn to_v(&self) -> V {
+                V::R(vec![self.v.to_v(), self.tr.to_v()])
+            }
+            fn arb(r: &mut Rng) -> Self {
+                Payload { v: String::arb(r), tr: Tr::new() }
+            }
+        }
+        twin_of::<Payload>()
+    };
+    [a, b, c]
+}
+
+fn twin(ty: &str) -> Option<Twin> {
+    let k = match ty {
+        "twa" => 0,
+        "twb" => 1,
+        "twc" => 2,
+        _ => return None,
+    };
+    let t = twins();
+    // the premise of these family members: equal names (distinct `TypeId`s are checked by the casts)
+    assert!(t[0].type_name == t[1].type_name && t[1].type_name == t[2].type_name, "twin types print different names");
+    Some(t[k])
+}
+
+/// a hash table with 17..=80 entries of different sizes
+fn big_hash_val(ty: &str, r: &mut Rng) -> Option<String> {
+    let n = r.range(17, 80) as usize;
+    let word = |r: &mut Rng, i: usize| -> V {
+        let mut b = format!("{i:02}").into_bytes();
+        let extra = match r.below(4) {
+            0 => 0,
+            1 => r.below(4),
+            _ => r.below(60),
+        };
+        b.extend((0..extra).map(|_| b'a' + r.below(26) as u8));
+        V::S(b)
+    };
+    let items: Vec<V> = match ty {
+        "hmap" => (0..n).map(|i| V::T(vec![V::P(2, (i * 7 + 3) as u128), if r.chance(1, 5) { V::S(vec![]) } else { word(r, i) }])).collect(),
+        "hset" => (0..n).map(|i| word(r, i)).collect(),
+        _ => return None,
+    };
+    Some(V::R(vec![V::L(items), V::F(0, 0)]).show())
+}
+
 fn arb_val(ty: &str, r: &mut Rng) -> Option<String> {
+    if let Some(tw) = twin(ty) {
+        return Some((tw.arb)(r));
+    }
+    if (ty == "hmap" || ty == "hset") && r.chance(1, 2) {
+        return big_hash_val(ty, r);
+    }
     with_ty!(ty, T => Some(<T as Fam>::arb(r).to_v().show()), _ => None)
 }
 
@@ -1565,7 +1815,9 @@ pub fn exec(input: &str) -> String {
                         None => "noslot".into(),
                         Some(k) => {
                             let m = &mut slots[k].1;
-                            let r = if *ty == "ncu32" {
+                            let r = if let Some(tw) = twin(ty) {
+                                (tw.set)(m, ctor, &v)
+                            } else if *ty == "ncu32" {
                                 set_nc::<Nc>(m, ctor, &v)
                             } else {
                                 with_clonable_ty!(*ty, T => set_generic::<T>(m, ctor, &v), _ => None)
@@ -1604,7 +1856,11 @@ pub fn exec(input: &str) -> String {
                     None => "noslot".into(),
                     Some(k) => {
                         let (tg, m) = slots.remove(k);
-                        let r: Option<Result<String, Message>> = with_ty!(*ty, T => Some(cast_generic::<T>(m)), _ => None);
+                        let r: Option<Result<String, Message>> = if let Some(tw) = twin(ty) {
+                            Some((tw.cast)(m))
+                        } else {
+                            with_ty!(*ty, T => Some(cast_generic::<T>(m)), _ => None)
+                        };
                         match r {
                             Some(Ok(s)) => s,
                             Some(Err(m)) => {
@@ -1619,7 +1875,9 @@ pub fn exec(input: &str) -> String {
                     None => "noslot".into(),
                     Some(k) => {
                         let m = &mut slots[k].1;
-                        let r: Option<Option<String>> = if *op == "content" {
+                        let r: Option<Option<String>> = if let Some(tw) = twin(ty) {
+                            Some(if *op == "content" { (tw.content)(m) } else { (tw.content_mut)(m) })
+                        } else if *op == "content" {
                             with_ty!(*ty, T => Some(m.try_content::<T>().map(|v| v.to_v().show())), _ => None)
                         } else {
                             with_ty!(*ty, T => Some(m.try_content_mut::<T>().map(|v| v.to_v().show())), _ => None)
@@ -1635,7 +1893,11 @@ pub fn exec(input: &str) -> String {
                     None => "noslot".into(),
                     Some(k) => {
                         let m = &slots[k].1;
-                        let r: Option<bool> = with_ty!(*ty, T => Some(m.can_cast::<T>()), _ => None);
+                        let r: Option<bool> = if let Some(tw) = twin(ty) {
+                            Some((tw.can_cast)(m))
+                        } else {
+                            with_ty!(*ty, T => Some(m.can_cast::<T>()), _ => None)
+                        };
                         match r {
                             Some(b) => format!("{b}"),
                             None => continue,
